@@ -16,6 +16,14 @@ BOUNDS = "sizes 2..6; random / permuted diagonally dominant / triangular / singu
 TOL = F(1, 2 ** 30)
 
 
+_stats = {"solve_answered": 0, "solve_theorem_applies": 0}
+
+
+def evidence_extra():
+    return {"solve_cases_answered": _stats["solve_answered"],
+            "solve_cases_meeting_the_theorems_pivot_hypothesis": _stats["solve_theorem_applies"]}
+
+
 def fl(res):
     m = re.match(r"^f\(([0-9x]*):(.*)\)$", res)
     if not m:
@@ -57,10 +65,14 @@ def agree(case, impl, model):
         (s1, e1), (s2, e2) = parse_a(t[1]), parse_a(t[2])
         if model.startswith("err("):
             return vlib.canon(impl) == vlib.canon(model)
-        m = re.match(r"^list\(list\(l\((.*)\);l\((.*)\)\);z\((\d)\)\)$", model)
+        m = re.match(r"^list\(list\(l\((.*)\);l\((.*)\)\);z\((\d)\);z\((\d)\)\)$", model)
         r = fl(impl)
         if not m or r is None or m.group(3) != "1":
             return False
+        _stats["solve_answered"] += 1
+        if m.group(4) != "1":
+            return False        # a zero pivot although |det| >= 1e-12: the solve theorem's hypothesis would fail
+        _stats["solve_theorem_applies"] += 1
         xs = [F(int(a), int(b)) for a, b in zip(m.group(1).split(","), m.group(2).split(","))]
         sh, vals = r
         if sh != s2 or len(vals) != len(xs) or any(v != v or math.isinf(v) for v in vals):
